@@ -6,7 +6,7 @@ CONSTANTS
   LitSuf <- LitSufQ
   IntStyles = {"bare"}
   StrLen = 2
-  StrAlpha = {"L", "7", "-", "+", "eL", "sp", "mb", "sl", "pc", "ff", "c3"}
+  StrAlpha = {"L", "7", "-", "+", "eL", "sp", "mb", "sl", "pc", "ff", "c3", "bz"}
   StrLen2 = 3
   StrAlpha2 = {"L", "eL", "mb", "ff"}
   BindRoutes <- BindRoutesQ
